@@ -193,6 +193,11 @@ PROPS['C08']['apalache'] = ['LemmaDifference']
 PROPS['C09']['apalache'] = ['LemmaOverlap']
 PROPS['C10']['apalache'] = ['LemmaAllowsAll']
 PROPS['C04']['apalache'] = [('OrderLaws', 'OrderInt.tla')]
+for _p in ('C07', 'C08', 'C09', 'C10'):
+    PROPS[_p]['tlaps'] = 'CutOrder.tla'
+    # binds the proved module to Interval.tla: same operators on every pair of bounds of the large universe
+    PROPS[_p]['models'].append(dict(name='MC_CutBind', module='MC_CutBind', constants={}, workers=4,
+                                    invariants=['InvOrderAssumptions', 'InvTyped', 'InvSameOperators', 'InvSameShapes']))
 # C14: every interval over a small endpoint set x every list of up to 3 (thorough: 4) versions of a 7-version universe
 PROPS['C14']['models'].append(dict(name='MC_Lists', module='MC_Lists', constants=dict(MaxList=3, Emit=True, Slice=0, Of=1),
                                    thorough=dict(MaxList=4), invariants=['InvAnswerExists']))
